@@ -30,7 +30,8 @@ class Identifier(Node):
         names = []
         name = []
         self._subp = ('@media', '@keyframes', '@-moz-keyframes',
-                      '@-webkit-keyframes', '@-ms-keyframes')
+                      '@-webkit-keyframes', '@-ms-keyframes',
+                      '@-o-keyframes')
         if self.tokens and hasattr(self.tokens, 'parse'):
             self.tokens = list(
                 utility.flatten([
